@@ -98,6 +98,26 @@ func (a *Analyzer) exec(ctx int, instr ssa.Instruction, st *State, depth int) []
 			s.addEQ(av.n.sub(n))
 		}
 		a.set(s, ctx, v, av)
+	case *ssa.SliceToArrayPointer:
+		// [N]T(x) and (*[N]T)(x) panic when len(x) < N
+		n := int64(-1)
+		if pt, ok := v.Type().Underlying().(*types.Pointer); ok {
+			if arr, ok := pt.Elem().Underlying().(*types.Array); ok {
+				n = arr.Len()
+			}
+		}
+		ok := false
+		x, isStr := a.val(s, ctx, v.X).(AStr)
+		if isStr {
+			ok = n >= 0 && s.provesLE(konst(n).sub(x.n))
+		} else if _, isNil := a.val(s, ctx, v.X).(ANil); isNil {
+			ok = n == 0
+		}
+		a.oblige(v, "convert", fmt.Sprintf("[%d](%s)", n, v.X.Name()), ok, s)
+		if isStr {
+			s.addLE(konst(n).sub(x.n))
+		}
+		a.set(s, ctx, v, AArr{n})
 	case *ssa.Range:
 		a.set(s, ctx, v, AOther{})
 	case *ssa.Next:
